@@ -534,7 +534,22 @@ func (s *Stage) Recover() {
 					validate = append(validate, cmp)
 				}
 			} else if _, err = os.Stat(base); os.IsNotExist(err) {
-				// Not found
+				// Not found. If the previous run stopped in the middle of
+				// moving the (already logged) file into place, finish that
+				// move before dropping the companion
+				targetName := cmp.Name
+				if cmp.Renamed != "" {
+					targetName = cmp.Renamed
+				}
+				targetPath := filepath.Join(s.targetDir, targetName)
+				if _, err = os.Stat(targetPath + fileutil.LockExt); err == nil {
+					if err = os.Rename(targetPath+fileutil.LockExt, targetPath); err != nil {
+						s.logError("Failed to finish moving file into place:",
+							targetPath, err.Error())
+						return nil
+					}
+					s.logInfo("Finished moving file into place:", targetPath)
+				}
 				if err = os.Remove(path); err != nil {
 					s.logError("Failed to remove orphaned companion:",
 						path, err.Error())
